@@ -100,7 +100,7 @@ class LoopSpec:
     """
 
     def __init__(self, fingerprint, inv=None, havoc_types=None, unroll=False, extra_modifies=(), cut_concrete=False,
-                 havoc_like=None):
+                 havoc_like=None, convert=None):
         self.fingerprint = fingerprint
         self.inv = inv
         self.havoc_types = havoc_types or {}
@@ -108,6 +108,7 @@ class LoopSpec:
         self.extra_modifies = tuple(extra_modifies)
         self.cut_concrete = cut_concrete
         self.havoc_like = havoc_like or {}
+        self.convert = convert or {}
 
 
 class FuncSpec:
@@ -520,6 +521,8 @@ class Interp:
             return Opaque(z3.Const(self.reg.fresh(base), v.term.sort()), v.tag)
         if v is None:
             return None
+        if type(v).__name__ == 'SymDictOfLists':
+            return type(v).fresh(self, v.ksort, v.esort, base)
         if isinstance(v, RowVal):
             return RowVal([self.fresh_like(x, base + "[%d]" % i) for i, x in enumerate(v)], v.kind)
         if isinstance(v, (list, tuple)) and all(is_scalar(x) or isinstance(x, (list, tuple)) for x in v):
